@@ -36,6 +36,27 @@ def differential(ctx, kind, exe, model, count):
     return dict(kind=kind, cases=cases, impl=impl, model=mdl, first_diff=core.diff_lines(impl, mdl))
 
 
+def block_stage(ctx, exe, count):
+    """Whole blocks through the real Scheduler (parallel and forced-sequential) vs in-order stock revm."""
+    rc, out = core.sh([exe, "block", str(ctx.seed), str(count), ctx.work], timeout=1500)
+    if rc != 0:
+        raise RuntimeError("ben block harness failed: " + out[-2000:])
+    cases = open(os.path.join(ctx.work, "ben_block.in")).read().splitlines()
+    impl = open(os.path.join(ctx.work, "ben_block.impl")).read().splitlines()
+    roles, specs = collections.Counter(), collections.Counter()
+    names = ["absent", "near-overflow", "existing-empty", "sender", "recipient", "contract-with-storage",
+             "self-destructs", "forwarder", "plain-miner"]
+    nontrivial = set()
+    for c in cases:
+        m = re.match(r"block spec=(\S+) basefee=(\d+) role=(\d+) n=(\d+)", c)
+        roles[names[int(m.group(3))]] += 1
+        specs[m.group(1)] += 1
+        if ("probe" in c or "pay-beneficiary" in c or int(m.group(3)) in (3, 5, 6)) and int(m.group(4)) >= 2:
+            nontrivial.add(c)
+    return dict(kind="block", cases=cases, impl=impl, model=impl, first_diff=None,
+                stats=dict(roles=dict(roles), specs=dict(specs)), nontrivial=len(nontrivial))
+
+
 def hist_stats(cases, impl):
     ops, outs = collections.Counter(), collections.Counter()
     nontrivial = set()
@@ -229,7 +250,8 @@ def run(ctx):
     n_arith = 10000 if ctx.quick else 300000
     dh = differential(ctx, "hist", bins["ben"], model, n_hist)
     da = differential(ctx, "arith", bins["ben"], model, n_arith)
-    diffs = [dh, da]
+    db = block_stage(ctx, bins["ben"], 400 if ctx.quick else 12000)
+    diffs = [dh, da, db]
     corr_ok = all(d["first_diff"] is None for d in diffs)
     xmarks = sum(1 for d in diffs for l in d["impl"] if " X:" in l)
 
@@ -251,16 +273,17 @@ def run(ctx):
             "revm's journal (load_account_mut / incr_balance / finalize) and the commit layer's per-account rule are transcribed in Ben/Model.v, not verified; they are exercised against the real revm in the arith differential",
         ],
         theorems=proof["theorems"],
-        evaluations=len(dh["cases"]) + len(da["cases"]),
-        distinct_nontrivial=hnt + ant,
+        evaluations=len(dh["cases"]) + len(da["cases"]) + len(db["cases"]),
+        distinct_nontrivial=hnt + ant + db["nontrivial"],
         rule="hist: seeded op sequences (record_execution u/reward/journal-account/both, record_estimate, invalidate, resolve_before, validate; block sizes 0-6; repeated, stale, zero and usize::MAX incarnations; out-of-range ids; near-overflow balances and rewards; absent anchor; snapshots incl. None) on the real Beneficiary vs the extracted model; non-trivial = distinct sequence with an accepted record, a blocked read and a read with a non-empty chain. "
-             "arith: from_gas + revm's reward_beneficiary on a mainnet Context (all SpecIds, tx types 0-4 and unknown, price below/at/above base fee, zero/absent/huge priority fee, fee charge disabled, u64/u128 limits, negative refund, reservoir), apply_to vs revm incr_balance, BeneficiaryMode::apply in both modes followed by the real finalize / classification / record_execution / resolve_before; non-trivial = distinct gas case with a non-zero reward, every Deferred-mode case, every apply case",
-        hist=hs, arith=as_, cross_check_failures=xmarks,
-        samples=[dict(case=d["cases"][i], impl=d["impl"][i], model=d["model"][i]) for d in diffs for i in range(min(2, len(d["cases"])))],
+             "arith: from_gas + revm's reward_beneficiary on a mainnet Context (all SpecIds, tx types 0-4 and unknown, price below/at/above base fee, zero/absent/huge priority fee, fee charge disabled, u64/u128 limits, negative refund, reservoir), apply_to vs revm incr_balance, BeneficiaryMode::apply in both modes followed by the real finalize / classification / record_execution / resolve_before; non-trivial = distinct gas case with a non-zero reward, every Deferred-mode case, every apply case. "
+             "block (no model involved): seeded blocks of 1-10 txs through the real Scheduler, parallel (deferred rewards folded at ordered commit) and forced sequential (immediate), vs in-order stock revm: result, per-tx outcomes and bundle; fee recipient absent / near U256::MAX / existing-empty / sender / recipient / contract with storage / self-destructing / forwarder; zero tip, legacy and 1559; forks Homestead..Osaka; non-trivial = distinct block of >= 2 txs in which the fee recipient is read, paid or plays a sender/contract/self-destruct role",
+        hist=hs, arith=as_, block=db["stats"], cross_check_failures=xmarks,
+        samples=[dict(case=d["cases"][i][:600], impl=d["impl"][i][:300], model=d["model"][i][:300]) for d in diffs for i in range(min(2, len(d["cases"])))],
     )
     return ctx.finish("proof", cov, [
         "theorems are about the Gallina model Ben/Model.v; the tie to src/beneficiary*.rs is the differential above",
         "the u128 product is modelled as the release build computes it (wrapping); a debug build panics on overflow in grevm and in revm alike",
-        "the per-account commit rule (parallel_state.rs:296-351) and the deferred fold in ordered_commit.rs:144-158 are transcribed; their in-situ behaviour is covered by the block-level checks of C01/C08, not here",
+        "the per-account commit rule (parallel_state.rs:296-351) and the deferred fold in ordered_commit.rs:144-158 are transcribed in the model; in situ they are exercised only by the block stage (free-threaded runs vs in-order stock revm), which is testing, not proof",
         "protocol stage P3 (non-atomic scans interleaved with publication) is not part of this check: the theorems are about histories and operation sequences, validate_sound gives the per-read guarantee",
     ])
